@@ -3,7 +3,7 @@ CONSTANTS
   Blocks = 1
   MaxL = 5
   MaxStmts = 3
-  MaxCmts = 4
+  MaxCmts = 3
   Spices = {"frag", "glue", "look"}
   Deviations = {}
   KnownDevs = {"BlankCommentPadded", "KeywordSwallowsComment"}
